@@ -1,4 +1,83 @@
+/-
+C09 — lemmas: the stored STS policies along a sequence of abstract moves; facts about the driver's
+connection decisions.
+-/
 import LimnoriaModel.C09.Model
 import LimnoriaModel.C08.Trace
 namespace C09
+open Py C08
+open Gen.Conn (Fsm)
+
+theorem dictGet_dictDel_eq {β : Type} (d : List (Str × β)) (h k : Str) :
+    dictGet (dictDel d h) k = if k = h then none else dictGet d k := by
+  induction d with
+  | nil => simp [dictDel, dictGet]
+  | cons p ps ih =>
+    obtain ⟨k', v'⟩ := p
+    have hd : dictDel ((k', v') :: ps) h = if (k' != h) = true then (k', v') :: dictDel ps h else dictDel ps h := by
+      simp [dictDel, List.filter_cons]
+    rw [hd]
+    by_cases hk : k' = h
+    · have : (k' != h) = false := by simp [hk]
+      simp only [this, Bool.false_eq_true, if_false, ih]
+      by_cases hkh : k = h
+      · simp [hkh]
+      · simp only [hkh, if_false]
+        have : k' ≠ k := by rw [hk]; exact fun e => hkh e.symm
+        simp [dictGet, this]
+    · have : (k' != h) = true := by simp [hk]
+      simp only [this, if_true]
+      unfold dictGet
+      by_cases he : k' = k
+      · have : k ≠ h := by rw [← he]; exact hk
+        simp [he, this]
+      · simp only [he, if_false]; exact ih
+
+theorem dictGet_dictDel {β : Type} {d : List (Str × β)} {h k : Str} {v : β}
+    (hg : dictGet (dictDel d h) k = some v) : dictGet d k = some v := by
+  rw [dictGet_dictDel_eq] at hg
+  by_cases hk : k = h
+  · simp [hk] at hg
+  · simpa [hk] using hg
+
+/-- no stored policy is added or changed -/
+def NoNewPolicy (a b : Abs) : Prop := ∀ k p, dictGet b.policies k = some p → dictGet a.policies k = some p
+
+theorem sock_mono_move {cfg : Cfg} {K : Kind → Bool} {a b : Abs} (m : Move cfg K a b) : a.sock ≤ b.sock := by
+  cases m <;> simp
+
+theorem sock_mono {cfg : Cfg} {K : Kind → Bool} {a b : Abs} (m : Moves cfg K a b) : a.sock ≤ b.sock := by
+  induction m with
+  | refl => exact Nat.le_refl _
+  | step _ m ih => exact Nat.le_trans ih (sock_mono_move m)
+
+/-- On a connection the bot does not consider verified TLS, and as long as no new socket is opened, no
+sequence of moves adds or changes a stored STS policy (expiry can only remove one). -/
+theorem noNewPolicy_moves {cfg : Cfg} {K : Kind → Bool} {a b : Abs} (m : Moves cfg K a b)
+    (hs : aSecure cfg a = false) (hk : b.sock = a.sock) : NoNewPolicy a b ∧ b.forced = a.forced := by
+  induction m with
+  | refl => exact ⟨fun _ _ h => h, rfl⟩
+  | step m0 m ih =>
+    rename_i b c
+    have h1 := sock_mono m0
+    have h2 := sock_mono_move m
+    have hb : b.sock = a.sock := by omega
+    obtain ⟨hn, hf⟩ := ih hb
+    have hsb : aSecure cfg b = false := by simpa [aSecure, hf] using hs
+    cases m
+    case store h ps => rw [hsb] at h; cases h
+    case expire host => exact ⟨fun k p hg => hn k p (dictGet_dictDel hg), hf⟩
+    case conn f _ => simp at hk; omega
+    all_goals exact ⟨hn, hf⟩
+
+/-- with the stub driver no socket is ever opened by a handler -/
+theorem sock_const_stub {cfg : Cfg} {K : Kind → Bool} (hr : cfg.realDriver = false) {a b : Abs}
+    (m : Moves cfg K a b) : b.sock = a.sock := by
+  induction m with
+  | refl => rfl
+  | step _ m ih =>
+    cases m
+    case conn f h => rw [hr] at h; cases h
+    all_goals exact ih
+
 end C09
